@@ -174,27 +174,46 @@ def _spawn_sites(F, X, b):
     return sp
 
 
-def _object_keys(b, X, send):
-    """keys inserted into the serde_json::Map that becomes the sent Value (json! expansion)"""
-    keys = {}
-    ins = [c for c in b.calls if c.name == "serde_json::Map::insert" and b.dominates(c.bb, send.bb)]
-    # restrict to inserts not dominated by... (each json! builds its own map; pick inserts whose map is the one sent)
+def _object_keys(b, X, send, F=None):
+    """keys inserted into the serde_json::Map that becomes the sent Value (json! expansion).  Returns a list of
+    {key: value expr} - one per place where the sent object can be built (the object may be built by a same-file pure
+    helper with one json! per outcome; its parameters are then bound to the caller's arguments)"""
+    import model_msgs as mm
     sent = strip(X.operand(b, send.args[1]))
-    site = None
+    if F is not None and not any(y[0] == "call" and y[1] == "serde_json::Map::new" and y[3][0] == b.cdef for y in walk(sent)):
+        bfile = b.span.get("f")
+        sent = strip(mm.inline_pure(F, X, sent, depth=2, keep=lambda n: F.by_cdef.get(n) is None or F.by_cdef[n].span.get("f") != bfile or n.startswith("<")))
+    sites = []
     for y in walk(sent):
-        if y[0] == "call" and y[1] == "serde_json::Map::new":
-            site = y[3][1]
-    for c in ins:
-        m = strip(X.operand(b, c.args[0]))
-        if site is not None and not any(y[0] == "call" and y[1] == "serde_json::Map::new" and y[3][1] == site for y in walk(m)):
+        if y[0] == "call" and y[1] == "serde_json::Map::new" and (y[3][0], y[3][1]) not in sites:
+            sites.append((y[3][0], y[3][1]))
+    out = []
+    for cdef, site in sites:
+        hb = b if cdef == b.cdef or F is None else F.by_cdef.get(cdef)
+        if hb is None:
             continue
-        k = strip(X.operand(b, c.args[1]))
-        ks = None
-        for y in walk(k):
-            if y[0] == "const" and y[1].startswith('"'):
-                ks = y[1].strip('"')
-        keys[ks] = strip(X.operand(b, c.args[2]))
-    return keys
+        keys = {}
+        for c in hb.calls:
+            if c.name != "serde_json::Map::insert":
+                continue
+            if hb is b and not b.dominates(c.bb, send.bb):
+                continue
+            m = strip(X.operand(hb, c.args[0]))
+            if not any(y[0] == "call" and y[1] == "serde_json::Map::new" and y[3][1] == site for y in walk(m)):
+                continue
+            kx = strip(X.operand(hb, c.args[1]))
+            ks = None
+            for y in walk(kx):
+                if y[0] == "const" and y[1].startswith('"'):
+                    ks = y[1].strip('"')
+            v = strip(X.operand(hb, c.args[2]))
+            if hb is not b and F is not None:
+                v = strip(mm.expand_params(F, X, v, depth=2))
+            keys[ks] = v
+        out.append(keys)
+    if not out:
+        out.append({})
+    return out
 
 
 def r1(F, X, rep):
@@ -213,16 +232,16 @@ def r1(F, X, rep):
         for s in sends:
             aw = lib.await_of_call(b, s)
             rep.ob(rid, aw is not None, fn, "reply send is awaited", where=s.loc, how="awaited", detail="" if aw else "reply future dropped")
-            keys = _object_keys(b, X, s)
-            kid = keys.get("id")
-            okid = kid is not None and any(y[0] == "upvar" or (y[0] == "field" and y[3] == "CustomRequest") or y[0] == "param" for y in walk(kid)) and not any(y[0] == "const" and y[1] in ("null",) for y in walk(kid))
-            # the id must be the captured request id: expression rooted in the decoded CustomRequest's first field
-            rooted = kid is not None and any(y[0] == "field" and y[3] == "CustomRequest" and y[1] == "0" for y in walk(kid))
-            rep.ob(rid, okid and rooted, fn, "reply carries the request's id", where=s.loc, how=show(kid)[:80] if kid else "no id key",
-                   detail="" if okid and rooted else "reply at %s has id %s" % (s.loc, show(kid)[:80] if kid else "missing"))
-            ks = set(k for k in keys if k)
-            one = len(ks & {"result", "error"}) == 1 and "jsonrpc" in ks
-            rep.ob(rid, one, fn, "exactly one of result/error", where=s.loc, how=str(sorted(ks)), detail="" if one else "reply object has keys %s" % sorted(ks))
+            for keys in _object_keys(b, X, s, F):
+                kid = keys.get("id")
+                okid = kid is not None and any(y[0] == "upvar" or (y[0] == "field" and y[3] == "CustomRequest") or y[0] == "param" for y in walk(kid)) and not any(y[0] == "const" and y[1] in ("null",) for y in walk(kid))
+                # the id must be the captured request id: expression rooted in the decoded CustomRequest's first field
+                rooted = kid is not None and any(y[0] == "field" and y[3] == "CustomRequest" and y[1] == "0" for y in walk(kid))
+                rep.ob(rid, okid and rooted, fn, "reply carries the request's id", where=s.loc, how=show(kid)[:80] if kid else "no id key",
+                       detail="" if okid and rooted else "reply at %s has id %s" % (s.loc, show(kid)[:80] if kid else "missing"))
+                ks = set(k for k in keys if k)
+                one = len(ks & {"result", "error"}) == 1 and "jsonrpc" in ks
+                rep.ob(rid, one, fn, "exactly one of result/error", where=s.loc, how=str(sorted(ks)), detail="" if one else "reply object has keys %s" % sorted(ks))
     # the closure is spawned, not awaited inline, in the request arm
     sp = [x for b, _sends in cl for x in _spawn_sites(F, X, b)]
     rep.anchor(rid, "tokio::spawn of the per-request task", len(sp), 1)
